@@ -1366,6 +1366,61 @@ func c13ClientGoneScenario(w *core.W, kind string, seed uint64) {
 	e.finish(nil, false)
 }
 
+// scenario: the read of a message's two-octet length completes at the very moment Shutdown moves the
+// connection's read deadline into the past (the read is held inside the simulated stream until then). What
+// the server does with the rest of that message is its business; Shutdown returns, the connection is closed.
+func c13StreamReadCompletesAsShutdownBegins(w *core.W, bodyThere bool, seed uint64) {
+	e := newC13Env(w, "tcp-sim", fmt.Sprintf("length-read-completes-as-shutdown-begins/body-there=%v", bodyThere), seed)
+	if !e.start() {
+		return
+	}
+	cl, err := e.ln.Dial()
+	if err != nil {
+		e.finish(nil, false)
+		return
+	}
+	defer cl.Close()
+	var sv *netsim.Stream
+	for deadline := time.Now().Add(c13Watch); time.Now().Before(deadline); time.Sleep(200 * time.Microsecond) {
+		if a := e.ln.Accepted(); len(a) > 0 {
+			sv = a[0]
+			break
+		}
+	}
+	if sv == nil {
+		w.Inconclusive("c13-connection-not-accepted")
+		e.finish(nil, false)
+		return
+	}
+	q := new(dns.Msg)
+	q.SetQuestion("held.example.", dns.TypeA)
+	q.Id = 4242
+	b, _ := q.Pack()
+	fr := frame(b)
+	sv.HoldNextRead()
+	if bodyThere {
+		cl.Write(fr)
+	} else {
+		cl.Write(fr[:2]) // the body never comes
+	}
+	for deadline := time.Now().Add(c13Watch); !sv.HoldingRead() && time.Now().Before(deadline); {
+		time.Sleep(200 * time.Microsecond)
+	}
+	if !sv.HoldingRead() {
+		w.Inconclusive("c13-held-read-not-reached")
+		e.finish(nil, false)
+		return
+	}
+	w.Count("length_reads_completing_as_shutdown_begins", 1)
+	sd := e.shutdown("s1", nil)
+	if err, ok := sd.wait(c13Watch); !ok {
+		e.viol("shutdown-does-not-return", "Shutdown did not return: the length of a message had been read when the deadline was moved into the past, the read of the rest was given a deadline of its own")
+	} else if err != nil {
+		e.viol("shutdown-error", fmt.Sprintf("Shutdown returned %v", err))
+	}
+	e.finish(nil, false)
+}
+
 // scenario: the listener fails for good (Accept returns a non-temporary error) while connections are
 // open - one idle after an answered request, optionally one with a handler still running. The serve
 // loop is over, but the server has been started and not shut down: Shutdown still has to release the
@@ -1564,6 +1619,9 @@ func c13Cases() []c13Case {
 	}
 	for v := 0; v < 4; v++ {
 		v := v
+		if v < 2 {
+			cs = append(cs, c13Case{fmt.Sprintf("length read completes as shutdown begins %d", v), func(w *core.W, s uint64) { c13StreamReadCompletesAsShutdownBegins(w, v == 0, s) }})
+		}
 		cs = append(cs, c13Case{fmt.Sprintf("failed start %d", v), func(w *core.W, s uint64) { c13FailedStartScenario(w, v, s) }})
 		cs = append(cs, c13Case{fmt.Sprintf("reuse over other transport %d", v), func(w *core.W, s uint64) { c13ReuseScenario(w, v, s) }})
 		if v == 0 {
